@@ -120,6 +120,73 @@ pub fn ok_drains_itself<I: ConcurrentIterX>(iter: &I) -> usize {
     n
 }
 
+// ---- C15-STACK / C05-DRIVE / C06-GROW / C14-SERIAL / C15-ALLOC controls ----------------------------
+use orx_concurrent_iter::IterIntoConcurrentIter;
+use orx_fixed_vec::{FixedVec, PinnedVec};
+
+/// spawns workers with a stack of the library's choosing
+pub fn bad_small_stack(n: usize) -> usize {
+    std::thread::scope(|s| {
+        let h = std::thread::Builder::new()
+            .stack_size(64 * 1024)
+            .spawn_scoped(s, move || n * 2)
+            .expect("spawn");
+        h.join().expect("join")
+    })
+}
+
+/// answers from the length of the source: `f` never runs
+pub fn bad_len_skips_closure<F: Fn(u32) -> u32>(v: &[u32], f: F) -> usize {
+    v.iter().copied().map(f).len()
+}
+
+/// no closure on the chain: nothing is skipped
+pub fn ok_len_of_plain_chain(v: &[u32]) -> usize {
+    v.iter().copied().len()
+}
+
+/// the closure runs for every element
+pub fn ok_count_runs_closure<F: Fn(u32) -> u32>(v: &[u32], f: F) -> usize {
+    v.iter().copied().map(f).count()
+}
+
+/// a FixedVec cannot grow
+pub fn bad_push_onto_fixed(mut target: FixedVec<u32>, x: u32) -> FixedVec<u32> {
+    target.push(x);
+    target
+}
+
+/// through the inner Vec
+pub fn ok_push_through_vec(target: FixedVec<u32>, x: u32) -> FixedVec<u32> {
+    let mut v: Vec<u32> = target.into();
+    v.push(x);
+    v.into()
+}
+
+/// the user's closure becomes part of the serialised source
+pub fn bad_closure_in_source<F: Fn(&u32) -> bool + Send + Sync>(v: Vec<u32>, keep: F) -> usize {
+    let con = v.into_iter().filter(keep).into_con_iter();
+    let _ = &con;
+    0
+}
+
+/// a plain iterator as source
+pub fn ok_plain_source(v: Vec<u32>) -> usize {
+    let con = v.into_iter().into_con_iter();
+    let _ = &con;
+    0
+}
+
+/// a buffer sized by a free parameter
+pub fn bad_buffer_sized_by_parameter(chunk_size: usize) -> Vec<u32> {
+    Vec::with_capacity(chunk_size)
+}
+
+/// a buffer sized by the data
+pub fn ok_buffer_sized_by_data(v: &[u32]) -> Vec<u32> {
+    Vec::with_capacity(v.len())
+}
+
 pub mod par {
     pub mod collect_into {
         pub mod collect_into_core {
